@@ -64,6 +64,10 @@ CHECKS = {
          "2-6 conflicting cluster actions are committed before any execution task runs; the simulator draws how long each execution task waits before starting; announced execution order must be strictly increasing, results and observable state must equal sequential execution of the same log on a second server, and a restart must change nothing.",
          "Single-node server on a current_thread tokio runtime; only the task start order exposed by the hook is explored. Reference = same code executed one action at a time.", "6/C31"),
 
+ "C25": ("srvsim", "exploration", "deterministic simulation: the real server in-process; seeded batches with an injected failing query / bad result reference / wrong endpoint and server restarts, compared step by step with a reference execution (state and audit)",
+         "Batches are first executed as one agdb transaction on a local reference database, then the concrete queries are submitted to the real server's exec_mut/exec; refused batches must leave the read-back unchanged, applied ones must equal the reference, and the audit log must list exactly the mutating queries of applied batches in order with the submitting user, also after restarts.",
+         "Reference = agdb's own transaction (decided by C13/C03/C32). Finite floats only (JSON cannot carry NaN). Property/edge order may differ after a refused batch (documented rollback behaviour).", "6/C25"),
+
  "C04": ("dbsim", "exploration", "deterministic simulation: seeded storage histories with clean restarts, I/O noise and forced contended reads, checked operation by operation against a byte-level reference model",
          "Seeded search over storage-operation histories on all three back-ends; after every operation every live value is read back and compared with the model, removed values must be unreadable, and after defragmentation / restart the file must hold no unused space.",
          "Valid requests only; fault-free configuration (the crash configuration is C01). The model is 60 lines and mirrors the documented semantics of insert-at/move/resize.", "6/C04"),
